@@ -38,6 +38,10 @@ def build_args(ex, k, f):
                 val = ex.from_bits(pty, concat_le([(int(x), w) for x in conc]))
                 args.append(val); desc.append(dict(kind='v', ty=ty, lanes=[z3.BitVecVal(int(x), w) for x in conc], name=nm, concrete=True))
                 continue
+            lm = k.meta.get('lanemap')
+            if lm is not None:
+                # lanes share symbols as the map says (e.g. [0,1,1,1]: two independent values); the distinct symbols are listed first
+                ls = [ls[j] for j in lm]
             val = ex.from_bits(pty, concat_le([(x, w) for x in ls]))
             args.append(val); desc.append(dict(kind='v', ty=ty, lanes=ls, name=nm))
         elif kind == 'm':
@@ -220,6 +224,9 @@ def consts_of(e, memo=None):
     return out
 
 
+LAZY_IDS = set()
+
+
 class Decider:
     """decides obligations; keeps statistics for the evidence"""
 
@@ -234,9 +241,14 @@ class Decider:
         """cone of influence: keep the assumptions that (transitively) share a symbol with the negated goal.  Dropping an
         assumption only weakens the premise, so 'unsat' stays valid; the dropped ones talk about disjoint symbols and are
         satisfiable on their own (checked once per run by the vacuity witness), so 'sat' models extend to them."""
+        if LAZY_IDS:
+            # definitional equalities naming memory bytes: never needed for 'unsat' (the names are otherwise unconstrained); they are
+            # re-added when a model is completed for replay
+            assumptions = [a for a in assumptions if a.get_id() not in LAZY_IDS]
         if len(assumptions) < 8: return assumptions
         names = [s._names(a) for a in assumptions]
         live = set(consts_of(goal)); keep = [False] * len(assumptions)
+        if not live: return assumptions      # a ground goal (e.g. an unwinding assertion 'this path is infeasible'): the premises are the query
         changed = True
         while changed:
             changed = False
@@ -298,7 +310,8 @@ class Decider:
                 # complete the model over the assumptions that were sliced away (needed for a faithful native replay)
                 sol2 = z3.Solver(); sol2.set('timeout', int(s.timeout_s * 1000)); sol2.add(*(full + [g]))
                 r2 = sol2.check()
-                res = ('sat', sol2.model()) if r2 == z3.sat else (('unsat', None) if r2 == z3.unsat else ('sat', sol.model()))
+                # (completion undecided: the sliced model may not extend to the dropped premises -> undecided, never a counterexample)
+                res = ('sat', sol2.model()) if r2 == z3.sat else (('unsat', None) if r2 == z3.unsat else ('unknown', None))
             else:
                 res = ('sat', sol.model())
         else:
